@@ -709,6 +709,8 @@ func (g *gen) lambda() {
 	g.depth++
 	defer func() { g.depth-- }()
 	defer g.release(g.mark()) // the parameters of the lambda
+	g.enter("lambda")
+	defer g.leave()
 	g.fuel--
 	switch g.pickW(5, 3, 3, 2, 2, 1, 1) {
 	case 0:
